@@ -446,9 +446,14 @@ func lexValue(l *lexer) stateFn {
 		}
 	}
 
-	if seenFinalQuote || r != eof {
-		l.emit(itemValue)
+	if !seenFinalQuote {
+		// the input ended inside the string. Emitting nothing here would make the rest of the
+		// input disappear: after a complete query, the parser would see EOF and accept it.
+		return l.errorf("unterminated string")
 	}
+
+	l.emit(itemValue)
+
 	return lexText
 }
 
